@@ -58,11 +58,15 @@ def lengths_for(sz, rng, tier):
                               for _ in range(30)})
 
 
-def transfer(kind, sz, value, sub, latency, junk, res, desc):
-    """kind in write / read; returns None"""
+def transfer(kind, sz, value, sub, latency, junk, res, desc, sz_in=None,
+             lenient=False):
+    """kind in write / read; sz = master->slave mailbox size, sz_in =
+    slave->master mailbox size (default: the same); lenient = the server
+    accepts a download whose complete-size field is 0 (many slaves do)"""
+    sz_in = sz_in or sz
     t = bus.SimTerminal("T", station=21)
     struct.pack_into("<HHBBBB", t.mem, 0x800, 0x1000, sz, 0x26, 0, 1, 0)
-    struct.pack_into("<HHBBBB", t.mem, 0x808, 0x1400, sz, 0x22, 0, 1, 0)
+    struct.pack_into("<HHBBBB", t.mem, 0x808, 0x1400, sz_in, 0x22, 0, 1, 0)
     index = 0x8000
     objs = {}
     if kind == "read":
@@ -70,7 +74,8 @@ def transfer(kind, sz, value, sub, latency, junk, res, desc):
             objs[index, "CA"] = value
         else:
             objs[index, sub] = value
-    srv = bus.SdoServer(objs, mbx_in_size=sz, mbx_out_size=sz)
+    srv = bus.SdoServer(objs, mbx_in_size=sz_in, mbx_out_size=sz,
+                        strict_size=not lenient)
     t.mbx_handler = srv.handle
     lat = iter(latency)
     t.mbx_resp_latency = lambda: next(lat, 0)
@@ -106,7 +111,7 @@ def transfer(kind, sz, value, sub, latency, junk, res, desc):
         term.position = 21
         term.mbx_lock = ec.get_mbx_lock(21)
         term.mbx_out_off, term.mbx_out_sz = 0x1000, sz
-        term.mbx_in_off, term.mbx_in_sz = 0x1400, sz
+        term.mbx_in_off, term.mbx_in_sz = 0x1400, sz_in
         try:
             if kind == "write":
                 r = await asyncio.wait_for(
@@ -118,12 +123,20 @@ def transfer(kind, sz, value, sub, latency, junk, res, desc):
             return ("timeout", None)
         except Exception as ex:
             return ("raised", f"{type(ex).__name__}: {str(ex)[:120]}")
-    out = aio.run(main)
+    try:
+        out = aio.run(main, max_iterations=30000)
+    except aio.Idle as ex:
+        # bounded progress: a conformant exchange ends within a few hundred
+        # loop iterations; this is a logical-step bound, not a timer
+        out = ("timeout", f"transfer did not end: {ex}")
+    lim = (sz if kind == "write" else sz_in) - 16
     mode = ("expedited" if len(value) <= 4 and sub is not None
-            else "normal" if len(value) <= sz - 16 else "segmented")
-    if kind == "read" and sub is None and len(value) <= sz - 16:
+            else "normal" if len(value) <= lim else "segmented")
+    if kind == "read" and sub is None and len(value) <= lim:
         mode = "normal"
-    res.count(f"{kind}[{mode}{'/ca' if sub is None else ''}]")
+    res.count(f"{kind}[{mode}{'/ca' if sub is None else ''}]"
+              + ("[lenient]" if lenient else "")
+              + ("[asym]" if sz_in != sz else ""))
     res.count("mailbox_messages", len(t.mbx_writes) + len(t.mbx_reads))
     problems = []
     toolong = [len(m) for m in srv.errors if "exceeds mailbox" in m]
@@ -144,8 +157,14 @@ def transfer(kind, sz, value, sub, latency, junk, res, desc):
                         f"({len(out[1]) if hasattr(out[1], '__len__') else '?'}"
                         f" bytes), server holds {len(value)} bytes")
     if problems:
-        res.violation(classify(kind, mode, sub, junk),
-                      f"mailbox {sz}, {len(value)} bytes: "
+        key = classify(kind, mode, sub, junk)
+        if lenient and kind == "write" and mode == "normal" and \
+                sub is not None and 10 <= len(value) <= sz - 17 and \
+                not junk:
+            # this range works on the pinned tree with a lenient server
+            key = "unexplained:write-normal-lenient-server"
+        res.violation(key,
+                      f"mailbox {sz}/{sz_in}, {len(value)} bytes: "
                       + "; ".join(problems[:3]), case=desc,
                       witness=dict(server_log=srv.log[:12],
                                    messages=[m[:24].hex()
@@ -208,7 +227,10 @@ def concurrent(sz, rng, res):
                 asyncio.gather(*[job(j) for j in jobs]), 4000)
         except asyncio.TimeoutError:
             return None
-    outs = aio.run(main)
+    try:
+        outs = aio.run(main, max_iterations=60000)
+    except aio.Idle:
+        outs = None
     res.case(desc)
     res.count("concurrent_histories")
     res.count("concurrent_transfers", ntask)
@@ -276,6 +298,35 @@ def run_shard(params):
                 transfer(kind, sz, value, sub, latency, junk, res, desc)
     for _ in range(40 if params["tier"] == "quick" else 400):
         concurrent(sz, rng, res)
+    # single-message normal downloads against a server that does not insist
+    # on the complete-size field, symmetric and asymmetric mailboxes
+    others = [x for x in SIZES if x != sz]
+    for k in range(60 if params["tier"] == "quick" else 500):
+        sz_in = rng.choice([sz, rng.choice(others), rng.choice(others)])
+        ln = rng.choice([10, 11, sz - 18, sz - 17, rng.randint(10, max(
+            10, sz - 17))])
+        if ln < 10 or ln > sz - 17:
+            continue
+        if k % params.get("nparts", 3) != params["part"] % 3:
+            pass
+        value = bytes(rng.getrandbits(8) for _ in range(ln))
+        latency = [rng.choice([0, 0, 1, 3]) for _ in range(8)]
+        sub = rng.randint(1, 20)
+        desc = dict(kind="write", mailbox=sz, mailbox_in=sz_in, length=ln,
+                    sub=sub, latency=latency, junk=[], lenient=True,
+                    value=value.hex()[:64])
+        res.case(desc)
+        transfer("write", sz, value, sub, latency, [], res, desc,
+                 sz_in=sz_in, lenient=True)
+        # uploads with asymmetric mailboxes
+        ln2 = rng.randint(1, max(1, sz_in - 16))
+        value2 = bytes(rng.getrandbits(8) for _ in range(ln2))
+        desc2 = dict(kind="read", mailbox=sz, mailbox_in=sz_in, length=ln2,
+                     sub=sub, latency=latency, junk=[],
+                     value=value2.hex()[:64])
+        res.case(desc2)
+        transfer("read", sz, value2, sub, latency, [], res, desc2,
+                 sz_in=sz_in)
     return res
 
 
